@@ -246,6 +246,8 @@ func (x *sxpath) renderV(rich bool) string {
 		sb.WriteString("[@" + qn("k") + "=" + xpathLit(valOf(x.Pv, rich)) + "]")
 	case "child":
 		sb.WriteString("[" + qn(x.Pn) + "]")
+	case "nochild":
+		sb.WriteString("[not(" + qn(x.Pn) + ")]")
 	}
 	return sb.String()
 }
